@@ -410,10 +410,10 @@ func Go(f func()) {
 }
 func Join() { wg.Wait() }
 
-// YieldUntil waits (at most two seconds) until another goroutine called
-// SetFlag on the same flag.
+// YieldUntil waits (at most 200 ms) until another goroutine called SetFlag on
+// the same flag.
 func YieldUntil(flag *int32) {
-	deadline := time.Now().Add(2 * time.Second)
+	deadline := time.Now().Add(200 * time.Millisecond)
 	for atomic.LoadInt32(flag) == 0 && time.Now().Before(deadline) {
 		runtime.Gosched()
 	}
